@@ -1,6 +1,6 @@
 #!/bin/sh
 # usage: tools/try_mutant.sh <patch-file> <ID> [<ID>...]   — apply a patch to /repo, run the quick checks, undo.
-patch="$1"; shift
+patch="$(realpath "$1")"; shift
 cd /repo || exit 2
 if ! git diff --quiet; then echo "repo has uncommitted changes"; exit 2; fi
 git apply "$patch" || { echo "patch does not apply"; exit 2; }
